@@ -224,3 +224,25 @@ Proof.
   rewrite (dissect_frames sfs Hs) by (unfold dissect_fuel; cbn [sdata]; pose proof (enc_frames_len sfs); lia).
   reflexivity.
 Qed.
+
+(* ------------------------------------------------------------------ the full statement and what is left of it *)
+Definition item_view (it : item) : sitem := (it_req it, it_res it).
+
+(* C05 at full strength on the model: for conversations in normal form (no recorded finding
+   class triggered) both halves end cleanly and the items are exactly the specification's
+   report.  Not proved here; checked by computation on every generated normal-form conversation
+   (AmqpEq.spec_check inside the correspondence run). *)
+Definition C05_statement : Prop := forall cfs sfs, Forall wf_frame cfs -> Forall wf_frame sfs -> normal cfs sfs = true ->
+  let '(oc, os, ms) := dissect_both true {| sdata := enc_frames cfs; stail := TEof |} {| sdata := enc_frames sfs; stail := TEof |} in
+  oc = OEof /\ os = OEof /\ map item_view (items ms) = spec_report cfs sfs.
+
+(* what remains after the decoding theorems: the per-frame handling (`step`, with the matcher)
+   folded over the abstract frames yields the specification's report *)
+Definition step_report_agree : Prop := forall cfs sfs, Forall wf_frame cfs -> Forall wf_frame sfs -> normal cfs sfs = true ->
+  map item_view (items (snd (run_frames false sfs (init_dstate, snd (run_frames true cfs (init_dstate, init_mstate)))))) = spec_report cfs sfs.
+
+Theorem statement_from_step : step_report_agree -> C05_statement.
+Proof.
+  intros H cfs sfs Hc Hs Hn. rewrite (report_frames cfs sfs TEof TEof Hc Hs). cbn [end_outcome].
+  repeat split. exact (H cfs sfs Hc Hs Hn).
+Qed.
